@@ -8,7 +8,8 @@ import itertools
 import math
 from typing import Any, Dict
 
-from .abseval import Unsupported, Obj, Mat, Vec, Sym, Lin, OnceIter
+from .abseval import Unsupported, Obj, Mat, Vec, Sym, Lin, OnceIter, AbsRaise
+from .npmodel import Cube, GraphObj
 from .instances import Runtime, Instance, ExternalFunc
 
 
@@ -84,8 +85,14 @@ def install(rt: Runtime) -> Runtime:
 
     # ---- numpy slice ----------------------------------------------------------------------------------------
     def np_full(shape, value, dtype=None):
+        if isinstance(shape, tuple) and len(shape) == 3:
+            c = Cube([[[value] * shape[2] for _ in range(shape[1])] for _ in range(shape[0])])
+            c.as_matrix = True
+            return c
         if isinstance(shape, tuple) and len(shape) == 2:
             return Mat([[value] * shape[1] for _ in range(shape[0])])
+        if isinstance(shape, tuple) and len(shape) == 1:
+            return Vec([value] * shape[0])
         if isinstance(shape, int):
             return Vec([value] * shape)
         raise Unsupported("full shape")
@@ -97,7 +104,7 @@ def install(rt: Runtime) -> Runtime:
         return np_full(shape, 1)
 
     def np_asarray(v, dtype=None):
-        if isinstance(v, (Mat, Vec, Sym)):
+        if isinstance(v, (Mat, Vec, Sym, Cube)):
             return v
         if isinstance(v, list):
             if v and all(isinstance(r, list) for r in v):
@@ -143,6 +150,89 @@ def install(rt: Runtime) -> Runtime:
             tot = tot + x * y
         return tot
 
+    def np_array(v, dtype=None):
+        r = np_asarray(v)
+        if isinstance(r, Vec):
+            return Vec(list(r.vals))
+        if isinstance(r, Mat):
+            return Mat([list(x) for x in r.rows])
+        return r
+
+    def np_min(v):
+        vals = v.vals if isinstance(v, Vec) else list(v)
+        if not vals:
+            raise Unsupported("min of empty array")
+        return min(vals)
+
+    def np_where(v):
+        if isinstance(v, Vec):
+            return (Vec([i for i, m in enumerate(v.vals) if m]),)
+        if isinstance(v, Mat):
+            idx = [(i, j) for i, r in enumerate(v.rows) for j, m in enumerate(r) if m]
+            return (Vec([i for i, _ in idx]), Vec([j for _, j in idx]))
+        raise Unsupported("where operand")
+
+    def np_vstack(parts):
+        rows = []
+        for p_ in parts:
+            if isinstance(p_, Mat):
+                rows.extend([list(r) for r in p_.rows])
+            elif isinstance(p_, Vec):
+                rows.append(list(p_.vals))
+            else:
+                raise Unsupported("vstack operand")
+        return Mat(rows)
+
+    def np_argsort(v, kind=None):
+        vals = v.vals if isinstance(v, Vec) else list(v)
+        return Vec(sorted(range(len(vals)), key=lambda i: vals[i]))
+
+    def np_count_nonzero(v):
+        vals = v.vals if isinstance(v, Vec) else list(v)
+        return sum(1 for x in vals if x)
+
+    def np_shape(v):
+        if isinstance(v, Cube):
+            return (v.n, v.n, 3)
+        if isinstance(v, Mat):
+            return (len(v.rows), len(v.rows[0]) if v.rows else 0)
+        if isinstance(v, Vec):
+            return (len(v.vals),)
+        raise Unsupported("shape operand")
+
+    def np_logical(op):
+        def f(a, b):
+            if isinstance(a, Mat) and isinstance(b, Mat):
+                return Mat([[op(x, y) for x, y in zip(r1, r2)] for r1, r2 in zip(a.rows, b.rows)])
+            if isinstance(a, Vec) and isinstance(b, Vec):
+                return Vec([op(x, y) for x, y in zip(a.vals, b.vals)])
+            raise Unsupported("logical operands")
+        return f
+
+    def np_column_stack(t):
+        cols = [c.vals if isinstance(c, Vec) else list(c) for c in t]
+        return [list(x) for x in zip(*cols)]
+
+    ex["numpy.array"] = fn(np_array)
+    ex["numpy.min"] = fn(np_min)
+    ex["numpy.amin"] = fn(np_min)
+    ex["numpy.where"] = fn(np_where)
+    ex["numpy.vstack"] = fn(np_vstack)
+    ex["numpy.argsort"] = fn(np_argsort)
+    ex["numpy.count_nonzero"] = fn(np_count_nonzero)
+    ex["numpy.shape"] = fn(np_shape)
+    ex["numpy.logical_and"] = fn(np_logical(lambda x, y: bool(x) and bool(y)))
+    ex["numpy.logical_or"] = fn(np_logical(lambda x, y: bool(x) or bool(y)))
+    ex["numpy.column_stack"] = fn(np_column_stack)
+    ex["numpy.newaxis"] = None
+
+    def graph_ctor(*a, **kw):
+        g = GraphObj()
+        g.directed = kw.get("directed", a[0] if a else False)
+        return g
+    ex["igraph.Graph"] = fn(graph_ctor)
+    ex["numba.jit"] = fn(lambda *a, **kw: (lambda f: f))
+
     ex["numpy.sort"] = fn(np_sort)
     ex["numpy.cumsum"] = fn(np_cumsum)
     ex["numpy.concatenate"] = fn(np_concatenate)
@@ -152,7 +242,6 @@ def install(rt: Runtime) -> Runtime:
         ex[f"{mod}.zeros"] = fn(np_zeros)
         ex[f"{mod}.ones"] = fn(np_ones)
         ex[f"{mod}.asarray"] = fn(np_asarray)
-        ex[f"{mod}.array"] = fn(np_asarray)
         ex[f"{mod}.max"] = fn(np_max)
         ex[f"{mod}.amax"] = fn(np_max)
         ex[f"{mod}.sum"] = fn(np_sum)
